@@ -27,7 +27,12 @@ def programs(tier, rnd: random.Random):
 
 def corpus_sample(tier, rnd):
     names = corpus.names()
-    return names if tier == "thorough" else rnd.sample(names, 80)
+    if tier == "thorough":
+        return names
+    # every operand-class/operator/operand-class triple, called routine and cast type of the corpus occurs in the sample
+    from . import featcover
+    cov, _ = featcover.cover(set(names))
+    return sorted(set(cov) | set(rnd.sample(names, 30)))
 
 
 def light_eval(prop, results, noped):
@@ -139,7 +144,7 @@ GEN_SUBS = [  # (name, return type, parameters, body): parameters forwarded to m
     ("vt_cast_arg", "uint64_t", ["uint32_t v"], "{ return clz64(v) + v; }"),
     ("vt_local", "int32_t", ["int32_t a"], "{ int32_t t = a; t = t + a; return t + extract32(a, 0, 8); }"),
     ("vt_branch", "int32_t", ["int32_t a", "int32_t b"], "{ int32_t r = b; if (a > b) { r = a; } return r + a; }"),
-    ("vt_ext", "int32_t", ["HexInsnPktBundle *bundle", "int32_t f", "int32_t v"], "{ set_usr_field(bundle, f, v); return get_usr_field(bundle, f) + v; }"),
+    ("vt_ext", "int32_t", ["HexInsnPktBundle *bundle", "int32_t v"], "{ set_usr_field(bundle, HEX_REG_FIELD_USR_OVF, v); return get_usr_field(bundle, HEX_REG_FIELD_USR_OVF) + v; }"),
 ]
 
 
